@@ -1773,7 +1773,9 @@ func (g *gen) groupRel(n int) {
 		if o.PreserveParagraphs && g.chance(0.35) {
 			// a custom paragraph separator, also one with visible parts on the neighbouring lines
 			// (placeholders in Wrap/Justify/Align), between two or three pieces
-			o.ParagraphSeparator = []string{"<P>", " ~" + ls + "~ ", ls + "---" + ls, "--" + ls}[g.r.Intn(4)]
+			// (no character that is a substitution TARGET: rho(_) = - next to "--\n" would spell a separator
+			// in the substituted text only - a false alarm of the thorough tier, 12.5)
+			o.ParagraphSeparator = []string{"<P>", " ~" + ls + "~ ", ls + "===" + ls, "==" + ls}[g.r.Intn(4)]
 			for k := 1 + g.r.Intn(2); k > 0; k-- {
 				t.parts = append(t.parts, o.ParagraphSeparator)
 				t.sub = append(t.sub, false)
